@@ -43,22 +43,34 @@ m.write('C13', 'An aborted session still leaves a well-formed log of the complet
  (E, 'ex_aborted_log_shape', 'C13_example_aborted_log', None),
  (E, 'ex_aborted_model_is_the_real_run', 'C13_example_model_is_the_real_run', None),
 ])
-m.write('C08', "The table manager's log records exactly what was played (every schedule).", IMP.replace('Proofs.SessionExamples.', 'Proofs.SessionExamples Model.Conform Model.Json Proofs.RecordSpec.'), '''(* FULL STATEMENT (not proved in this form): for every board list and conforming script the logged records equal
-   record_spec of Spec/SessionSpec.v.  Proved: schedule independence for every input; the equality with the sequential
-   reference is evaluated in Coq (vm_compute) for each session exercised by the check and for the examples below. *)''',
+m.write('C08', "The table manager's log records exactly what was played (every schedule).", IMP.replace('Proofs.SessionExamples.', 'Proofs.SessionExamples Model.Conform Model.Json Proofs.RecordSpec Proofs.SessionPassOut Proofs.Wire Proofs.SessionConform Proofs.SessionConformLog Gen.JsonFns Proofs.JsonGen.'), '''(* FULL STATEMENT, PROVED (C08_conforming_session_log_is_the_reference / _every_schedule, Proofs/SessionConformLog.v): for
+   every non-empty board list and every conforming behaviour of the four clients, under EVERY schedule the log is
+   open ; one record per board, in order ; close, and each record is, as a JSON value, record_spec of the sequential reference
+   (the boards and what the players said, by the Laws / play reference / Law 77 formulas of Spec/).  Clients connect in the
+   order N, E, S, W in these theorems; for other arrival orders and extra requests the schedule-independence theorem plus the
+   per-session evaluation decide (suffix _partial). *)''',
  common('C08') + [
  (S, 'every_schedule_reaches_canonical', 'C08_log_independent_of_timing_partial', 'the final state - hence the log - of a session does not depend on thread timing'),
  (S, 'log_always_wellformed', 'C08_log_wellformed', None),
+ ('Proofs/SessionConformLog.v', 'conforming_session_log', 'C08_conforming_session_log', 'FULL, symbolic and unbounded, at the level of the thread network: a run of every conforming session ends with every process returned and the log open ; records ; close, where the record of board j is the record the model builds from board j and the four scripts'),
+ ('Proofs/SessionConformLog.v', 'conforming_session_log_is_spec', 'C08_conforming_session_log_is_the_reference', 'and, as JSON values, the records are exactly the sequential reference record_spec of Spec/SessionSpec.v'),
+ ('Proofs/SessionConformLog.v', 'conforming_session_log_every_schedule', 'C08_conforming_session_log_every_schedule', 'EVERY maximal run of the session ends in that same state - the log does not depend on thread timing'),
+ ('Proofs/JsonGen.v', 'g_record_json_eq', 'C08_generated_record_writer_is_hand_model', 'the JSON value of a record as built by JsonLogWriter.write REGENERATED from writer.py on every run is record_json of the model'),
  ('Proofs/RecordSpec.v', 'model_record_is_record_spec', 'C08_model_record_is_the_reference_record', 'FULL, for every board and every conforming script (sequential, no threads): the record the table manager model builds with the MODEL functions (take_bid / contract_of, play_by / tricks, calc_score) is, as a JSON value, exactly record_spec of the sequential reference built with the SPEC functions (Laws, play reference, Law 77 formulas)'),
  (E, 'ex_played_real_run_is_the_reference', 'C08_example_log_is_the_reference', 'non-vacuity: the real run of a two-board session equals the sequential reference (log and transcripts)'),
  (E, 'ex_played_model_is_the_real_run', 'C08_example_model_is_the_real_run', None),
  (E, 'ex_passed_out_real_run_is_the_reference', 'C08_example_passed_out', None),
 ])
 VW = 'Proofs/View.v'
-m.write('C10', 'Each seat is told exactly what the protocol entitles it to, and nothing else (every schedule).', IMP.replace('Proofs.SessionExamples.', 'Proofs.SessionExamples Proofs.View.').replace('Local Open Scope nat_scope.', 'Local Open Scope string_scope.\nLocal Open Scope nat_scope.'), '''(* FULL STATEMENT (not proved in this form): the lines sent on connection p equal view_spec p of Spec/SessionSpec.v for every
-   input.  Proved: schedule independence for every input; equality with view_spec is evaluated in Coq per exercised session. *)''',
+m.write('C10', 'Each seat is told exactly what the protocol entitles it to, and nothing else (every schedule).', IMP.replace('Proofs.SessionExamples.', 'Proofs.SessionExamples Proofs.View Model.Conform Proofs.SessionPassOut Proofs.Wire Proofs.SessionConform Proofs.SessionConformLog.').replace('Local Open Scope nat_scope.', 'Local Open Scope string_scope.\nLocal Open Scope nat_scope.'), '''(* FULL STATEMENT, PROVED (C10_conforming_session_views / _every_schedule, Proofs/SessionConformLog.v): for every non-empty
+   board list and every conforming behaviour of the four clients, under EVERY schedule the complete sequence of lines sent
+   on each of the four connections equals view_spec of Spec/SessionSpec.v for that seat; the theorems about view_spec below
+   say that this reference is what the property states.  Clients connect in the order N, E, S, W in these theorems; for other
+   arrival orders the schedule-independence theorem plus the per-session evaluation decide (suffix _partial). *)''',
  common('C10') + [
  (S, 'every_schedule_reaches_canonical', 'C10_transcripts_independent_of_timing_partial', 'the complete transcript of every connection does not depend on thread timing'),
+ ('Proofs/SessionConformLog.v', 'conforming_session_views', 'C10_conforming_session_views', 'FULL, symbolic and unbounded: a run of every conforming session ends with every process returned and, on each of the four connections, exactly the lines of view_spec for that seat'),
+ ('Proofs/SessionConformLog.v', 'conforming_session_views_every_schedule', 'C10_conforming_session_views_every_schedule', 'and EVERY maximal run ends in that same state: what each seat is told does not depend on thread timing'),
  (VW, 'view_board_decomp', 'C10_view_decomposition', 'the reference itself says what the property says: start line, header, own hand; then the auction part; then the play part'),
  (VW, 'board_starts_with_header', 'C10_board_starts_with_configured_header', None),
  (VW, 'view_spec_cards_lines', 'C10_only_own_cards_and_dummy', 'over a whole session the only cards lines a seat is sent are its own hand and Dummy (client texts that themselves look like a cards line excluded)'),
